@@ -341,7 +341,8 @@ class Case:
         self.bound = ""  # description of the bound when `samples` enumerates exhaustively
 
     def shapes(self):
-        return list(self.args) + list(self.kwargs.values())
+        # extra_shapes: symbolic state that is not an argument (free variables of a nested function under contract)
+        return list(self.args) + list(self.kwargs.values()) + list(getattr(self, "extra_shapes", []))
 
     def env(self):
         env = {}
